@@ -1292,6 +1292,23 @@ class C09(PropertyCheck):
         return None
 
     def shrink(self, case):
+        """candidates of `_shrink`, never leaving the class of the original failure: a failing case
+        outside the known-finding class D15 must not be minimised INTO that class (the minimiser only
+        asks whether the oracle still fails, and a D15 failure would then hide the real one)."""
+        try:
+            orig = self.known_finding(case, None)
+        except Exception:
+            orig = None
+        for c2 in self._shrink(case):
+            if orig is None:
+                try:
+                    if self.known_finding(c2, None) is not None:
+                        continue
+                except Exception:
+                    continue
+            yield c2
+
+    def _shrink(self, case):
         """drop one unmasked pixel (with its sub-size entry, its block of values, its grid row), lower a
         sub-size, shorten the schedule."""
         mj = case["mask"]
